@@ -114,6 +114,7 @@ type FnEnc struct {
 	refAlias map[string][]string
 	refAxioms bool // emit the reference well-formedness axiom for unknown pointer-valued heap arrays
 	epochDeclared map[string]bool
+	globalFactSeen map[string]bool
 	rawUsed  map[string]bool
 	fbits    map[string]string
 	heapTouch int
@@ -149,6 +150,7 @@ type frame struct {
 	// results
 	rets []retInfo
 	contract *FuncContract
+	inLibNote bool
 	parent *frame
 	isTop bool
 	namedVals map[string]ssa.Value // source-level names -> ssa value (params, phis with comments)
@@ -487,7 +489,20 @@ func (f *frame) loadLoc(l *Loc, h Heap) string {
 			e.stableGlobals[key] = true
 			return e.R.heapConst(key, e.R.sortOf(l.elemT))
 		}
-		return e.heapGet(h, key, e.R.sortOf(l.elemT))
+		t := e.heapGet(h, key, e.R.sortOf(l.elemT))
+		if facts := e.globalFieldFacts(l.global, t); len(facts) > 0 {
+			e.note("package variable " + l.global.Name() + " is written only by its initialiser: constant field values read off the init function")
+			for _, fct := range facts {
+				if e.globalFactSeen == nil {
+					e.globalFactSeen = map[string]bool{}
+				}
+				if !e.globalFactSeen[fct] {
+					e.globalFactSeen[fct] = true
+					e.decls = append(e.decls, "(assert "+fct+")")
+				}
+			}
+		}
+		return t
 	}
 	bail("loadLoc")
 	return ""
@@ -1368,6 +1383,19 @@ func (f *frame) loopPreserved(li *loopInfo) [][2]string {
 	return out
 }
 
+func (f *frame) pureCalleeKey(key string) bool {
+	fc := f.enc.E.CS.Funcs[key]
+	if fc == nil || fc.PureIf == nil {
+		return false
+	}
+	for _, k := range f.enc.top.contract.PureCalls {
+		if k == key {
+			return true
+		}
+	}
+	return false
+}
+
 // loopWrites: heap keys possibly written inside the loop ("*" = everything).
 func (f *frame) loopWrites(li *loopInfo) []string {
 	set := map[string]bool{}
@@ -1376,6 +1404,11 @@ func (f *frame) loopWrites(li *loopInfo) []string {
 			continue
 		}
 		for _, in := range b.Instrs {
+			if ci, ok := in.(ssa.CallInstruction); ok && f.enc.top != nil && f.enc.top.contract != nil {
+				if callee := ci.Common().StaticCallee(); callee != nil && f.pureCalleeKey(funcKey(callee)) {
+					continue // proved pure at every call site of this function (pure_calls)
+				}
+			}
 			f.enc.E.instrWrites(f.enc, in, set)
 		}
 	}
